@@ -296,7 +296,7 @@ class XferPeer:
         """Ask the client for ``filename``: PeerTransferQueue (or a direct PeerTransferRequest)."""
         dl = self.downloads.get(filename) or self.want(filename)
         link = await self.p_link()
-        if link is None:
+        if link is None or filename in self.muted:
             return
         dl.queued_at.append(self.loop.time())
         if via == 'queue':
